@@ -68,9 +68,9 @@ func libGT(c *mon.Case, v bn.Fp12) *h.GT {
 	return e
 }
 
-// gtPowers runs the four exponentiation entry points on base (reference value
-// rbase) and compares each with rbase^k. tbl may be nil (no fixed-base table).
-func gtPowers(c *mon.Case, base *h.GT, rbase bn.Fp12, tbl *[64]h.GTFieldTable, k *big.Int, want bn.Fp12) {
+// gtPowers runs the exponentiation entry points on base and compares each with
+// want = base^k in the model. tbl may be nil (no fixed-base table for base).
+func gtPowers(c *mon.Case, base *h.GT, tbl *[64]h.GTFieldTable, k *big.Int, want bn.Fp12) {
 	var r *h.GT
 	var err error
 	kb := b32(k)
@@ -96,7 +96,6 @@ func gtPowers(c *mon.Case, base *h.GT, rbase bn.Fp12, tbl *[64]h.GTFieldTable, k
 		eqGT(c, "GT.ScalarMult", r, want)
 		c.Event("gt.scalarmult", 1)
 	}
-	_ = rbase
 }
 
 // coefficient kinds for arbitrary Fp12 operands (field-arithmetic corner values)
@@ -216,7 +215,7 @@ func gtWorkload(x *mon.Ctx) {
 		c.Class("gt/generator/%s", s.fam)
 		if e := env(c); e != nil {
 			want := t.g0.Exp(s.k)
-			gtPowers(c, e.g0, t.g0, e.tbl, s.k, want)
+			gtPowers(c, e.g0, e.tbl, s.k, want)
 			var r *h.GT
 			if c.Call("GT.ScalarBaseMult", func() { r = new(h.GT).ScalarBaseMult(new(big.Int).Set(s.k)) }) {
 				eqGT(c, "GT.ScalarBaseMult", r, want)
@@ -274,7 +273,7 @@ func gtWorkload(x *mon.Ctx) {
 		if i%4 == 0 {
 			c.Call("GenerateGTFieldTable(a)", func() { tbl = h.GenerateGTFieldTable(a) })
 		}
-		gtPowers(c, a, ra, tbl, k, want)
+		gtPowers(c, a, tbl, k, want)
 		eqGT(c, "a after the operations", a, ra)
 		// laws, decided inside the library and against integer arithmetic
 		var aj, ak, ajk, prod, pw *h.GT
@@ -342,6 +341,28 @@ func gtWorkload(x *mon.Ctx) {
 					eqGT(c, "copy squared", cp, rb.Mul(rb))
 					eqGT(c, "source of the copy", b, rb)
 				}
+			}
+		}
+		c.End()
+	}
+
+	// RandomGT: k in [1,N-1] read from the given source and e(P1,P2)^k
+	for i, cnt := 0, x.Scale(8, 200); i < cnt; i++ {
+		c := x.Begin("gt RandomGT #%d with a seeded byte source", i)
+		if c == nil {
+			continue
+		}
+		c.Class("gt/randomgt")
+		var k *big.Int
+		var r *h.GT
+		var err error
+		if c.Call("RandomGT", func() { k, r, err = h.RandomGT(c.R) }) {
+			if err != nil || k == nil || r == nil {
+				c.Fail("reject", "RandomGT failed with a source that never fails: %v", err)
+			} else if k.Sign() <= 0 || k.Cmp(bn.N) >= 0 {
+				c.Fail("mismatch", "RandomGT: k = %x outside [1, N-1]", k)
+			} else {
+				eqGT(c, "RandomGT", r, t.g0.Exp(k))
 			}
 		}
 		c.End()
